@@ -146,7 +146,10 @@ class C18(Prop):
                     files.setdefault(name, self.content(rng))
                 names.append(name)
             argv += names
-            yield {'argv': argv, 'files': files, 'stdin': self.content(rng), 'rimurc': rng.choice([None, None, "{rc} = 'RC'\n.safeMode = '0'", '*rc text*'])}
+            rimurc = rng.choice([None, None, "{rc} = 'RC'\n.safeMode = '0'", '*rc text*', '<i>rc</i> {rc}'])
+            if rimurc is not None and rng.random() < 0.3:
+                argv.insert(rng.randrange(len(argv) - len(names) + 1), '--no-rimurc')
+            yield {'argv': argv, 'files': files, 'stdin': self.content(rng), 'rimurc': rimurc}
 
     def execute(self, case, ctx, res):
         cli = CliImpl(ctx.impl)
